@@ -117,6 +117,13 @@ structure Sphere3 (α : Type) where
   radius : α
 deriving Repr, DecidableEq
 
+/-- a printed text as extracted from `operator<<`: literal pieces and element tokens
+(`tok i w flags prec`: input slot `i` printed with field width `w`, `ios` flags and precision) -/
+inductive Seg where
+  | lit (s : List Char)
+  | tok (i w flags prec : Nat)
+deriving Repr, DecidableEq
+
 /-- kinds of C++ standard exceptions thrown by the checked (`...Exc`) variants -/
 inductive Exc where
   | domainError | invalidArgument | overflowError | underflowError | outOfRange
